@@ -548,6 +548,20 @@ func navigate(c Case, srv *server, latest map[string]string, spans map[string][]
 		return
 	}
 	text := latest[u]
+	// the absolute oracle speaks about scripts: a printed program whose text does not parse
+	// cleanly (a string literal ending in a backslash swallows what follows it on its line) is
+	// not one, and what the server answers inside it is only constrained by the other oracles
+	if perr := func() (n int) {
+		defer func() {
+			if recover() != nil {
+				n = 1
+			}
+		}()
+		return len(parser.Parse(text).Errors)
+	}(); perr > 0 {
+		res.Probes["nav_skipped_printed_text_has_parse_errors"]++
+		return
+	}
 	decl := map[string]gen.Span{}
 	for _, s := range sp {
 		if s.Kind == "decl" {
